@@ -18,12 +18,20 @@
 //           console break), the same value ever after
 //   C06win  terminate / kill address the child's own process group / handle,
 //           exactly once, and nothing is sent once a status has been returned
+//   C03win  the command line splits back (documented rules) into exactly the
+//           arguments given, the environment block is parent entries then
+//           extras, the working directory is the one requested
+//   C09win  reported events are within the interests, the count is right, an
+//           event means the read does not block, nothing left -> closed-pipe error
+//   C17win  non-blocking reads / writes never wait, blocking ones wait only for
+//           the child, start-up input is delivered completely or start fails
 //   C02win  bytes written by the child arrive exactly once and in order, the
 //           closed-stream error only after all data, also across the child's
 //           exit (the Windows-only "keep the child's ends open" logic)
 #include "common/fw.hpp"
 
 #include "winsim.h"
+#include "props/C18_oracle.hpp"
 
 #include <algorithm>
 #include <set>
@@ -37,7 +45,7 @@ using namespace fw;
 
 namespace {
 
-enum Cat { CAT_WIRING, CAT_INHERIT, CAT_LEDGER, CAT_IO, CAT_STATUS, CAT_SIGNAL, CAT_START };
+enum Cat { CAT_WIRING, CAT_INHERIT, CAT_LEDGER, CAT_IO, CAT_STATUS, CAT_SIGNAL, CAT_START, CAT_LAUNCH, CAT_POLL, CAT_BLOCK };
 #if defined(WPROP_C10win)
 const Cat kMine = CAT_WIRING;
 #elif defined(WPROP_C11win)
@@ -46,6 +54,12 @@ const Cat kMine = CAT_INHERIT;
 const Cat kMine = CAT_LEDGER;
 #elif defined(WPROP_C04w2)
 const Cat kMine = CAT_START;
+#elif defined(WPROP_C03win)
+const Cat kMine = CAT_LAUNCH;
+#elif defined(WPROP_C09win)
+const Cat kMine = CAT_POLL;
+#elif defined(WPROP_C17win)
+const Cat kMine = CAT_BLOCK;
 #elif defined(WPROP_C01win)
 const Cat kMine = CAT_STATUS;
 #elif defined(WPROP_C06win)
@@ -76,6 +90,8 @@ struct Plan {
   bool exit_before_read = false;
   uint32_t exit_code = 0;
   int ending = 0;       // 0 child exits by itself, 1 terminate, 2 kill, 3 destroy while running
+  std::vector<std::string> args;  // argv[1..]
+  bool probe_blocking = false;    // exercise the (non-)blocking behaviour of read / write before the child says anything
 };
 
 const uint32_t kErrors[] = { 5, 87, 1450, 10024 /* WSAEMFILE */, 10055 /* WSAENOBUFS */ };
@@ -176,6 +192,21 @@ Plan decode(Tape &t, long sweep)
   static const uint32_t codes[] = { 0, 1, 3, 255, 256, 0x7fffffffu };
   p.exit_code = codes[t.pick(6)];
   p.ending = (int) t.weighted({ 4, 2, 2, 2 });
+  // arguments from an alphabet in which every character matters to the Windows parsing rules
+  static const char *alphabet[] = { "a", " ", "\t", "\"", "\\", "\xc3\xa9", "b c", "\\\"", "" };
+  size_t na = (size_t) t.weighted({ 2, 3, 3, 2 });
+  for (size_t i = 0; i < na; i++) {
+    std::string a;
+    size_t len = (size_t) t.weighted({ 1, 3, 3, 2, 1 });
+    for (size_t k = 0; k < len; k++) a += alphabet[t.pick(9)];
+    p.args.push_back(a);
+  }
+  p.probe_blocking = t.coin();
+  // start-up input around and beyond the capacity of the pipe
+  if (p.input >= 0 && t.chance(1, 4)) {
+    static const int big[] = { 65535, 65536, 65537, 70000, 200000 };
+    p.input = big[t.pick(5)];
+  }
   return p;
 }
 
@@ -189,9 +220,15 @@ uint8_t pattern(int stream, size_t off) { return (uint8_t) (1 + (off * 131 + (si
 
 struct Verdicts {
   CaseResult *res;
+  bool any = false;  // something (of any category) is wrong: the scenario is cut short
   void bad(Cat c, const std::string &sig, const std::string &msg)
   {
-    if (c == kMine) res->fail(sig, msg);
+    // structural problems (the child does not have what it should) make the rest of the scenario meaningless
+    if (c == CAT_WIRING || c == CAT_INHERIT || c == CAT_START) any = true;
+    if (c == kMine) {
+      res->fail(sig, msg);
+      any = true;
+    }
   }
 };
 
@@ -281,7 +318,11 @@ CaseResult run_case(Tape &t, long sweep)
   pblock += L'\0';
   pblock += L'\0';
   wsim_set_parent_env(pblock.data(), pblock.size());
-  const char *argv[] = { "prog.exe", "arg one", "", nullptr };
+  std::vector<const char *> argvv;
+  argvv.push_back("prog.exe");
+  for (auto &a : p.args) argvv.push_back(a.c_str());
+  argvv.push_back(nullptr);
+  const char *const *argv = argvv.data();
 
   // shorthand + explicit settings may be an invalid combination: the options
   // model of C13 owns that; here only combinations that are valid are run
@@ -313,6 +354,8 @@ CaseResult run_case(Tape &t, long sweep)
                      .kv("exit_before_read", p.exit_before_read)
                      .kv("ending", endn[p.ending])
                      .kv("exit_code", (unsigned long long) p.exit_code)
+                     .raw("args", [&] { std::vector<std::string> v; for (auto &a : p.args) v.push_back(jstr(a)); return jarr(v); }())
+                     .kv("probe_blocking", p.probe_blocking)
                      .str();
   res.hash = mix(mix((uint64_t) p.type[0] * 64 + (uint64_t) p.type[1] * 8 + (uint64_t) p.type[2], (uint64_t) p.sh_parent * 2 + (uint64_t) p.sh_discard + (uint64_t) p.nonblocking * 4 + (uint64_t) (p.input + 1) * 8),
                  mix((uint64_t) p.fault_kind * 1000000 + (uint64_t) p.alloc_n * 10000 + (uint64_t) p.api * 100 + (uint64_t) p.nth, (uint64_t) p.stdk[0] * 9 + (uint64_t) p.stdk[1] * 3 + (uint64_t) p.stdk[2] + (uint64_t) p.out_bytes * 31 + (uint64_t) p.err_bytes * 17 + (uint64_t) p.ending * 7 + p.exit_before_read));
@@ -339,6 +382,17 @@ CaseResult run_case(Tape &t, long sweep)
   for (int s = 0; s < 3; s++)
     if (effective(p, s) == REPROC_REDIRECT_PARENT && p.stdk[s] == STD_BROKEN) natural_fail = true;
 
+  bool oversized_input = p.input > 65536;
+  bool broken_std = natural_fail;
+  if (oversized_input) {
+    natural_fail = true;
+    res.cls("startup-input-beyond-capacity");
+    if (wsim_hung()) v.bad(CAT_BLOCK, "start-blocked-on-input", ctx + "start blocked while delivering start-up input larger than the pipe");
+    if (r > 0) {
+      // accepted: then everything has to arrive (checked below with the other sizes)
+      natural_fail = false;
+    } else if (!fired && !broken_std && r != REPROC_EWOULDBLOCK) v.bad(CAT_BLOCK, "oversized-input-wrong-error", ctx + "start-up input of " + std::to_string(p.input) + " bytes does not fit the pipe; start returned " + std::to_string(r) + " instead of the would-block error");
+  }
   bool started = r > 0;
   if (r == 0) v.bad(CAT_START, "zero-result", ctx + "returned 0");
   if (!started) {
@@ -363,7 +417,7 @@ CaseResult run_case(Tape &t, long sweep)
     }
   } else {
     res.cls(fired ? "start-succeeded-under-fault" : "start-succeeded");
-    if (natural_fail) v.bad(CAT_WIRING, "broken-std-handle-ignored", ctx + "succeeded although a stream is redirected to a parent stream whose handle cannot be obtained");
+    if (natural_fail && !oversized_input) v.bad(CAT_WIRING, "broken-std-handle-ignored", ctx + "succeeded although a stream is redirected to a parent stream whose handle cannot be obtained");
   }
 
   // ---- what the child was given ------------------------------------------------
@@ -474,12 +528,50 @@ CaseResult run_case(Tape &t, long sweep)
     }
     // creation flags the other properties rely on
     if (!(cp->flags & 0x200)) v.bad(CAT_SIGNAL, "no-own-process-group", ctx + "CREATE_NEW_PROCESS_GROUP is missing: CTRL-BREAK would reach other processes");
-    if (!(cp->flags & 0x400)) v.bad(CAT_WIRING, "no-unicode-environment", ctx + "CREATE_UNICODE_ENVIRONMENT is missing although a UTF-16 block is passed");
-    if (p.wd ? (!cp->cwd || std::wstring(cp->cwd) != L"C:\\work dir") : cp->cwd != nullptr) v.bad(CAT_WIRING, "wrong-working-directory", ctx + "the working directory passed to CreateProcessW is not the one requested");
+  }
+
+  // ---- what the program is told: arguments, environment ---------------------------------
+  if (started && cp->cmdline) {
+    std::string cl = c18::to_utf8(cp->cmdline, wcslen(cp->cmdline));
+    std::vector<std::string> want_argv;
+    want_argv.push_back("prog.exe");
+    for (auto &a : p.args) want_argv.push_back(a);
+    for (int variant = 0; variant < 2; variant++) {
+      std::vector<std::string> back = c18::split(cl, variant == 1);
+      if (back != want_argv) {
+        std::string got;
+        for (auto &b : back) got += "[" + b + "]";
+        v.bad(CAT_LAUNCH, "arguments-differ", ctx + "command line <" + cl + "> splits (" + (variant ? "2008+ C runtime" : "CommandLineToArgvW") + " rules) into " + got + ", not into the arguments given");
+        break;
+      }
+    }
+    // environment block: parent entries (when extending) then the extras, each NUL-terminated, a final NUL
+    std::vector<std::string> want_env;
+    if (p.env == 0) {
+      want_env.push_back("P1=x");
+      want_env.push_back("P2=y");
+    }
+    want_env.push_back("A=1");
+    want_env.push_back("B=two words");
+    std::vector<std::string> got_env;
+    if (cp->env) {
+      const wchar_t *e = cp->env;
+      while (*e) {
+        got_env.push_back(c18::to_utf8(e, wcslen(e)));
+        e += wcslen(e) + 1;
+      }
+    }
+    if (got_env != want_env) {
+      std::string g;
+      for (auto &x : got_env) g += "[" + x + "]";
+      v.bad(CAT_LAUNCH, "environment-differs", ctx + "the environment block holds " + g + (cp->env ? "" : " (no block passed)"));
+    }
+    if (p.wd ? (!cp->cwd || std::wstring(cp->cwd) != L"C:\\work dir") : cp->cwd != nullptr) v.bad(CAT_LAUNCH, "wrong-working-directory", ctx + "the working directory passed to CreateProcessW is not the one requested");
+    if (!(cp->flags & 0x400)) v.bad(CAT_LAUNCH, "no-unicode-environment", ctx + "CREATE_UNICODE_ENVIRONMENT is missing although a UTF-16 block is passed");
   }
 
   // ---- life after start -------------------------------------------------------------
-  if (started && res.kind == CaseResult::PASS) {
+  if (started && !v.any) {
     res.nontrivial = true;
     // start-up input reaches the child completely, followed by end-of-file
     if (p.input >= 0) {
@@ -490,11 +582,91 @@ CaseResult run_case(Tape &t, long sweep)
       while ((k = wsim_child_read(got.data() + n, got.size() - n)) > 0) n += (size_t) k;
       if (k != 0) v.bad(CAT_IO, "stdin-no-eof", ctx + "after start-up input of " + std::to_string(p.input) + " bytes the child does not see end-of-file on stdin");
       if (n != (size_t) p.input) v.bad(CAT_IO, "startup-input-lost", ctx + "start-up input: the child received " + std::to_string(n) + " of " + std::to_string(p.input) + " bytes");
+      if (n != (size_t) p.input) v.bad(CAT_BLOCK, "startup-input-truncated", ctx + "start reported success, but of the " + std::to_string(p.input) + " bytes of start-up input the child received " + std::to_string(n) + ": it is neither delivered completely nor did start fail");
       for (size_t i = 0; i < n && i < (size_t) p.input; i++)
         if (got[i] != pattern(0, i)) {
           v.bad(CAT_IO, "startup-input-corrupt", ctx + "start-up input differs at offset " + std::to_string(i));
           break;
         }
+    }
+    // ---- (non-)blocking behaviour, before the child has said anything --------------------
+    if (p.probe_blocking && wsim_child_running()) {
+      res.cls("blocking-probe");
+      for (int s = 1; s <= 2; s++) {
+        if (!piped[s] || (s == 2 && effective(p, 2) == REPROC_REDIRECT_STDOUT)) continue;
+        uint8_t b[16];
+        if (p.nonblocking) {
+          uint64_t t0 = wsim_now();
+          int k = reproc_read(proc, s == 1 ? REPROC_STREAM_OUT : REPROC_STREAM_ERR, b, sizeof(b));
+          if (wsim_hung() || wsim_now() != t0) v.bad(CAT_BLOCK, "nonblocking-read-waited", ctx + "a non-blocking read with nothing to read waited for the child");
+          else if (k != REPROC_EWOULDBLOCK) v.bad(CAT_BLOCK, "nonblocking-read-result", ctx + "a non-blocking read with nothing to read returned " + std::to_string(k) + " instead of the would-block error");
+        } else {
+          // a blocking read waits until the child writes: the child does so when the wait begins
+          static int probe_stream;
+          static bool probe_fired;
+          probe_stream = s;
+          probe_fired = false;
+          wsim_on_block([](const char *, void *) -> int {
+            if (probe_fired) return 0;
+            probe_fired = true;
+            uint8_t x[3] = { 0xf1, 0xf2, 0xf3 };
+            return wsim_child_write(probe_stream, x, 3) == 3;
+          });
+          int k = reproc_read(proc, s == 1 ? REPROC_STREAM_OUT : REPROC_STREAM_ERR, b, sizeof(b));
+          wsim_on_block(nullptr);
+          if (!probe_fired) v.bad(CAT_BLOCK, "blocking-read-did-not-wait", ctx + "a blocking read with nothing to read returned " + std::to_string(k) + " without waiting for the child");
+          else if (k != 3 || b[0] != 0xf1 || b[2] != 0xf3 || wsim_hung()) v.bad(CAT_BLOCK, "blocking-read-result", ctx + "a blocking read during which the child wrote 3 bytes returned " + std::to_string(k));
+        }
+      }
+      if (piped[0] && p.input < 0) {
+        // flood stdin beyond the capacity of the pipe while the child reads nothing
+        std::vector<uint8_t> big(70000);
+        for (size_t i = 0; i < big.size(); i++) big[i] = pattern(0, i);
+        size_t off = 0;
+        static bool drained;
+        drained = false;
+        static std::vector<uint8_t> *sink;
+        std::vector<uint8_t> child_got;
+        sink = &child_got;
+        auto child_drain = [](const char *, void *) -> int {
+          uint8_t tmp[8192];
+          long k;
+          bool any = false;
+          while ((k = wsim_child_read(tmp, sizeof(tmp))) > 0) {
+            sink->insert(sink->end(), tmp, tmp + k);
+            any = true;
+          }
+          drained = drained || any;
+          return any;
+        };
+        if (!p.nonblocking) wsim_on_block(child_drain);
+        int rounds = 0;
+        while (off < big.size() && rounds++ < 100) {
+          uint64_t t0 = wsim_now();
+          int k = reproc_write(proc, big.data() + off, big.size() - off);
+          if (k > 0) off += (size_t) k;
+          else if (k == REPROC_EWOULDBLOCK && p.nonblocking) break;
+          else {
+            v.bad(CAT_BLOCK, "flood-write-result", ctx + "write #" + std::to_string(rounds) + " of a " + std::to_string(big.size()) + "-byte flood returned " + std::to_string(k) + " after " + std::to_string(off) + " bytes");
+            break;
+          }
+          if (p.nonblocking && (wsim_hung() || wsim_now() != t0)) {
+            v.bad(CAT_BLOCK, "nonblocking-write-waited", ctx + "a non-blocking write waited for the child");
+            break;
+          }
+        }
+        wsim_on_block(nullptr);
+        if (p.nonblocking) {
+          if (off != 65536) v.bad(CAT_BLOCK, "nonblocking-write-count", ctx + "non-blocking writes accepted " + std::to_string(off) + " bytes before reporting would-block; the pipe holds 65536");
+        } else if (off != big.size() || !drained) v.bad(CAT_BLOCK, "blocking-write-incomplete", ctx + "a blocking write of " + std::to_string(big.size()) + " bytes, with a child that reads whenever the writer waits, delivered " + std::to_string(off));
+        child_drain(nullptr, nullptr);
+        if (child_got.size() != off || !std::equal(child_got.begin(), child_got.end(), big.begin())) v.bad(CAT_IO, "stdin-bytes-differ", ctx + "the child received " + std::to_string(child_got.size()) + " bytes of a flood of which " + std::to_string(off) + " were accepted (or different bytes)");
+        reproc_close(proc, REPROC_STREAM_IN);
+        uint8_t one;
+        if (wsim_child_read(&one, 1) != 0) v.bad(CAT_IO, "stdin-no-eof", ctx + "after reproc_close(stdin) the child does not see end-of-file");
+        piped[0] = false;  // done with stdin
+        res.cls("stdin-flood");
+      }
     }
     // parent writes to stdin
     if (piped[0] && p.input < 0) {
@@ -509,7 +681,7 @@ CaseResult run_case(Tape &t, long sweep)
       (void) c;
       uint8_t one;
       if (wsim_child_read(&one, 1) != 0) v.bad(CAT_IO, "stdin-no-eof", ctx + "after reproc_close(stdin) the child does not see end-of-file");
-    } else if (!piped[0]) {
+    } else if (!piped[0] && effective(p, 0) != REPROC_REDIRECT_PIPE) {
       uint8_t b = 1;
       int w = reproc_write(proc, &b, 1);
       if (w != REPROC_EPIPE) v.bad(CAT_WIRING, "parent-end-without-pipe", ctx + "stdin is not a pipe, yet reproc_write returned " + std::to_string(w) + " instead of the closed-pipe error");
@@ -560,10 +732,19 @@ CaseResult run_case(Tape &t, long sweep)
     }
     if (piped[1] || piped[2]) res.cls("output-piped");
     if (total[1] + total[2] > 65536) res.cls("output-exceeds-socket-buffer");
+    // a running child is not reported as exited, and a zero-timeout poll does not let time pass
+    if (wsim_child_running() && !v.any) {
+      reproc_event_source e = { proc, REPROC_EVENT_EXIT, 0x7fff };
+      uint64_t t0 = wsim_now();
+      int pr = reproc_poll(&e, 1, 0);
+      if (pr != 0 || e.events != 0) v.bad(CAT_POLL, "exit-reported-for-running-child", ctx + "a poll for the exit of the running child returned " + std::to_string(pr) + " with events " + std::to_string(e.events));
+      if (wsim_now() != t0) v.bad(CAT_POLL, "zero-timeout-poll-waited", ctx + "a poll with timeout 0 let " + std::to_string(wsim_now() - t0) + " ms pass");
+      res.cls("exit-poll-on-running-child");
+    }
     // read everything through poll + read, the way drain does
     int guard = 0;
     bool dbg = getenv("WSIM_DEBUG") != nullptr;
-    while ((!eof[1] || !eof[2]) && res.kind == CaseResult::PASS && guard++ < 20000) {
+    while ((!eof[1] || !eof[2]) && !v.any && guard++ < 3000) {
       reproc_event_source src = { proc, (piped[1] && !eof[1] ? REPROC_EVENT_OUT : 0) | (piped[2] && !eof[2] ? REPROC_EVENT_ERR : 0), 0 };
       bool all_sent = sent[1] == total[1] && sent[2] == total[2];
       if (all_sent && !exited && p.ending != 3) {
@@ -573,6 +754,11 @@ CaseResult run_case(Tape &t, long sweep)
       }
       int pr = reproc_poll(&src, 1, all_sent ? 1000 : 0);
       if (dbg && guard < 40) fprintf(stderr, "round %d: interests %d poll=%d events=%d sent %zu/%zu %zu/%zu got %zu %zu eof %d %d exited %d\n", guard, src.interests, pr, src.events, sent[1], total[1], sent[2], total[2], got[1], got[2], eof[1], eof[2], exited);
+      if (pr >= 0) {
+        if (src.events & ~(src.interests | REPROC_EVENT_DEADLINE)) v.bad(CAT_POLL, "event-not-requested", ctx + "poll reports events " + std::to_string(src.events) + " for interests " + std::to_string(src.interests));
+        if (pr != (src.events != 0 ? 1 : 0)) v.bad(CAT_POLL, "poll-count", ctx + "poll returned " + std::to_string(pr) + " with events " + std::to_string(src.events) + " on its single source");
+        if (src.events & REPROC_EVENT_DEADLINE) v.bad(CAT_POLL, "deadline-without-deadline", ctx + "poll reports a deadline event for a process without deadline");
+      }
       if (pr < 0) {
         if (pr == REPROC_EPIPE) break;
         v.bad(CAT_IO, "poll-error", ctx + "reproc_poll returned " + std::to_string(pr) + " while output was pending");
@@ -606,20 +792,31 @@ CaseResult run_case(Tape &t, long sweep)
           int again = reproc_read(proc, s == 1 ? REPROC_STREAM_OUT : REPROC_STREAM_ERR, buf, sizeof(buf));
           if (again != REPROC_EPIPE) v.bad(CAT_IO, "epipe-not-sticky", ctx + "a read after the closed-stream error returned " + std::to_string(again));
         } else if (k == REPROC_EWOULDBLOCK && p.nonblocking) {
-          // reported readable but nothing there: only legitimate for the end-of-stream that the re-poll after exit detection produces
+          v.bad(CAT_POLL, "reported-but-read-would-block", ctx + std::string(s == 1 ? "stdout" : "stderr") + " was reported readable but the read would block");
         } else {
           v.bad(CAT_IO, "read-error", ctx + std::string(s == 1 ? "stdout" : "stderr") + ": reproc_read after a reported event returned " + std::to_string(k));
         }
       }
       child_pump();
     }
-    if (guard >= 20000) v.bad(CAT_IO, "drain-loop-stuck", ctx + "20000 poll/read rounds without reaching end-of-stream");
+    if (eof[1] && eof[2] && (piped[1] || piped[2]) && !v.any) {
+      reproc_event_source src = { proc, REPROC_EVENT_OUT | REPROC_EVENT_ERR, 0x7fff };
+      int pr = reproc_poll(&src, 1, 0);
+      if (pr != REPROC_EPIPE) v.bad(CAT_POLL, "poll-after-all-closed", ctx + "both output streams have reported end-of-stream; a poll for them returned " + std::to_string(pr) + " (events " + std::to_string(src.events) + ") instead of the closed-pipe error");
+      reproc_event_source none = { nullptr, REPROC_EVENT_OUT, 0x7fff };
+      reproc_event_source two[2] = { none, { proc, REPROC_EVENT_EXIT, 0x7fff } };
+      int pr2 = reproc_poll(two, 2, 0);
+      if (pr2 >= 0 && (two[0].events != 0 || pr2 != (two[1].events != 0 ? 1 : 0))) v.bad(CAT_POLL, "null-source-reported", ctx + "a source without a process reports events " + std::to_string(two[0].events) + " (poll returned " + std::to_string(pr2) + ")");
+      if (exited && pr2 >= 0 && !(two[1].events & REPROC_EVENT_EXIT)) v.bad(CAT_POLL, "exit-not-reported", ctx + "the child has exited but a poll for its exit reports " + std::to_string(two[1].events));
+      res.cls("poll-after-eof");
+    }
+    if (guard >= 3000) v.bad(CAT_IO, "drain-loop-stuck", ctx + "3000 poll/read rounds without reaching end-of-stream");
     for (int s = 1; s <= 2; s++) {
       if (!piped[s]) {
         uint8_t b;
         int k = reproc_read(proc, s == 1 ? REPROC_STREAM_OUT : REPROC_STREAM_ERR, &b, 1);
         if (k != REPROC_EPIPE) v.bad(CAT_WIRING, "parent-end-without-pipe", ctx + std::string(s == 1 ? "stdout" : "stderr") + " is not a pipe, yet reproc_read returned " + std::to_string(k) + " instead of the closed-pipe error");
-      } else if (exited && eof[s] && got[s] != sent[s] && res.kind == CaseResult::PASS) {
+      } else if (exited && eof[s] && got[s] != sent[s] && !v.any) {
         v.bad(CAT_IO, "data-lost", ctx + std::string(s == 1 ? "stdout" : "stderr") + ": " + std::to_string(sent[s] - got[s]) + " byte(s) the child wrote before it exited were never delivered");
       }
     }
